@@ -118,3 +118,81 @@ func c19Recheck(c *Ctx, prop string) {
 	c.CheckConst(rule, "matcher|guarded-inserts-seen", n >= 1, 0, fmt.Sprintf("%d create-if-missing map updates examined", n))
 	_ = types.Typ
 }
+
+// c19TypeKey implements C19.type-key: "each query increments its type counter exactly once" needs a counter key for
+// EVERY 16-bit query type. typeToStatsKey may return a tabled name only where the table is known to hold one (a
+// comma-ok map lookup that came out true); everything else must be formatted from the type number itself. A table
+// element returned unconditionally (seed c19f: a [256]string fast path with empty slots) counts unknown types under
+// the empty key.
+func c19TypeKey(c *Ctx) {
+	rule := "C19.type-key"
+	c.Rule(rule, "A2 on typeToStatsKey: every value that can reach the result is either the value of a comma-ok map lookup chosen under ok == true, or the result of a call that takes (a value derived from) the query type as an argument")
+	fn := c.Func("dnsserver", "typeToStatsKey")
+	c.Examined(fn)
+	param := fn.Params[0]
+	n := 0
+	for _, leaf := range resultLeaves(fn, 0) {
+		n++
+		ok, why := false, "neither a checked table hit nor formatted from the type"
+		switch x := leaf.V.(type) {
+		case *ssa.Extract:
+			if lk, isLk := x.Tuple.(*ssa.Lookup); isLk && lk.CommaOk && x.Index == 0 {
+				if hasFact(leaf.At, func(v ssa.Value, truth bool) bool {
+					ex, isEx := v.(*ssa.Extract)
+					return isEx && ex.Tuple == x.Tuple && ex.Index == 1 && truth
+				}) {
+					ok, why = true, "table hit under ok"
+				} else {
+					why = "table value used without its ok"
+				}
+			}
+		case *ssa.Call:
+			for _, a := range x.Call.Args {
+				for v := range backSlice(a, nil) {
+					if v == ssa.Value(param) {
+						ok, why = true, "formatted from the type"
+					}
+				}
+			}
+		}
+		c.Check(rule, fmt.Sprintf("%s|result#%d", fnName(fn), n), ok, leaf.V.Pos(), why)
+	}
+	c.Floor(rule, 2)
+}
+
+// c19SamplesPrivate implements C19.samples-private: the exporter sorts the sample list it is handed (Stats.Get sorts
+// in place to find min/max); the window hands out a private copy. A slice that is also kept in the window (seed c19e:
+// a cached copy trimmed by the cleaner "index for index") is reordered behind the window's back, so expiry removes
+// the smallest values instead of the oldest ones.
+func c19SamplesPrivate(c *Ctx) {
+	rule := "C19.samples-private"
+	c.Rule(rule, "A8 ownership on (*slidingWindow).Samples: every value that reaches the result is a slice allocated in the function (make / append to nil) that is not stored into any struct field; no result is a load of receiver state")
+	fn := c.Func("metrics", "(*slidingWindow).Samples")
+	c.Examined(fn)
+	n := 0
+	for _, leaf := range resultLeaves(fn, 0) {
+		n++
+		ok, why := true, "freshly allocated, not retained"
+		for s := range sourcesOf(leaf.V) {
+			switch x := s.(type) {
+			case *ssa.MakeSlice:
+				for _, r := range *x.Referrers() {
+					if st, isSt := r.(*ssa.Store); isSt && st.Val == ssa.Value(x) {
+						if _, isField := st.Addr.(*ssa.FieldAddr); isField {
+							ok, why = false, "the returned slice is also stored in a field at "+c.relPos(st.Pos())
+						}
+					}
+				}
+			case *ssa.Const:
+				// nil
+			default:
+				if isBuiltinCall(s, "append") != nil {
+					continue
+				}
+				ok, why = false, fmt.Sprintf("result derives from %s (%T), not from an allocation in Samples", s.Name(), s)
+			}
+		}
+		c.Check(rule, fmt.Sprintf("%s|result#%d|private-copy", fnName(fn), n), ok, leaf.V.Pos(), why)
+	}
+	c.Floor(rule, 1)
+}
